@@ -4,7 +4,7 @@
    Cluster/RemoteNetProofs.v (two-node system). *)
 From Coq Require Import List NArith Bool Sorted Lia Arith.
 From RV Require Import Cluster.Remote Cluster.RemoteProofs Cluster.RemoteNetProofs Cluster.RemoteReplyProofs.
-From RV Require Cluster.Writer.
+From RV Require Cluster.Writer Cluster.Frame Cluster.WriterReader.
 Import ListNotations.
 Local Open Scope N_scope.
 
@@ -181,6 +181,17 @@ Theorem C20_writer_failure_truncates : forall frame (enc : frame -> list N) ls s
   exists more, Writer.wire frame s ++ more = Writer.encs frame enc (Writer.sent frame ls).
 Proof. exact Writer.writer_failure_truncates. Qed.
 
+(* byte pipe end to end: whatever batches the write task formed and however the transport
+   fragments them, the session reader (C19's Frame model) produces what it produces on the plain
+   concatenation of the frames' encodings, in hand-over order *)
+Theorem C20_writer_reader_end_to_end :
+  forall (max : N) (valid : list N -> bool) (frame : Type) (enc : frame -> list N) ls s chunks,
+    Writer.run frame enc (Writer.init frame) ls = Some s -> Writer.dead frame s = false ->
+    Writer.queue frame s = [] ->
+    concat chunks = Writer.wire frame s ->
+    Frame.run max valid chunks = Frame.run max valid [Writer.encs frame enc (Writer.sent frame ls)].
+Proof. exact WriterReader.writer_reader_end_to_end. Qed.
+
 (* ---- statement pins ---- *)
 Check (C20_tags_fresh_proxy : forall evs st outs,
   prun pst0 evs = (st, outs) ->
@@ -293,3 +304,4 @@ Print Assumptions C20_oracle_sound_proxy.
 Print Assumptions C20_exit_announced.
 Print Assumptions C20_writer_transparent.
 Print Assumptions C20_writer_failure_truncates.
+Print Assumptions C20_writer_reader_end_to_end.
